@@ -32,7 +32,11 @@ func (g *JSONGen) leaf() string {
 
 // hostile returns a dictionary string as a JSON string (invalid UTF-8 is replaced by the encoder).
 func (g *JSONGen) hostile() string {
-	b, _ := json.Marshal(HostileStrings[g.R.Intn(len(HostileStrings))])
+	h := HostileStrings[g.R.Intn(len(HostileStrings))]
+	if g.R.Intn(2) == 0 {
+		h = RandString(g.R)
+	}
+	b, _ := json.Marshal(h)
 	return string(b)
 }
 
